@@ -45,7 +45,9 @@ pub trait DynColl<T: Elem>: Send + Sync {
     fn intra(&mut self) -> Result<(), Error>;
     fn root(&self) -> Hash256;
     /// `as_ssz_bytes()` and `ssz_bytes_len()`.
-    fn ssz(&self) -> (Vec<u8>, usize);
+    /// third component: `Some(bytes)` when `ssz_append` onto a NON-EMPTY buffer appended something else than
+    /// `as_ssz_bytes()` (the encoding of a collection must not depend on where in a buffer it is written)
+    fn ssz(&self) -> (Vec<u8>, usize, Option<Vec<u8>>);
     /// The static half of `Encode`: `is_ssz_fixed_len()` and `ssz_fixed_len()` of the type.
     fn ssz_static(&self) -> (bool, usize);
     fn to_json(&self) -> Option<serde_json::Value>;
@@ -153,8 +155,13 @@ macro_rules! common_methods {
         fn root(&self) -> Hash256 {
             self.tree_hash_root()
         }
-        fn ssz(&self) -> (Vec<u8>, usize) {
-            (self.as_ssz_bytes(), self.ssz_bytes_len())
+        fn ssz(&self) -> (Vec<u8>, usize, Option<Vec<u8>>) {
+            let bytes = self.as_ssz_bytes();
+            let mut buf = vec![0xa5u8; 7];
+            self.ssz_append(&mut buf);
+            let appended = buf[7..].to_vec();
+            let bad = if buf[..7] != [0xa5u8; 7] || appended != bytes { Some(appended) } else { None };
+            (bytes, self.ssz_bytes_len(), bad)
         }
         fn ssz_static(&self) -> (bool, usize) {
             (
